@@ -15,6 +15,7 @@ import (
 	"sort"
 	"strconv"
 	"strings"
+	"sync"
 	"testing"
 
 	goose "github.com/goose-lang/goose"
@@ -258,7 +259,17 @@ func mapExpr(e vread.Expr) vread.Expr {
 	return e
 }
 
+var importsOnce sync.Once
+
 func translate(src string, cfg goose.TranslationConfig) (*tv.Translation, error) {
+	// creates the scratch module that imports (github.com/goose-lang/goose/machine) are resolved
+	// from; without it every generated program that imports machine was unusable when the test
+	// binary runs outside the harness module (as it does under cmd/check)
+	importsOnce.Do(func() {
+		if _, err := tv.NewGoRunner(); err != nil {
+			ev.Note("cannot create the scratch module for imports: %v", err)
+		}
+	})
 	return tv.Translate("main", []tv.SourceFile{{Name: "prog.go", Src: src}}, cfg)
 }
 
@@ -442,12 +453,14 @@ func runFlags(c FlagsCase) (string, bool) {
 		cfg := goose.TranslationConfig{TypeCheck: mask&1 != 0, AddSourceFileComments: mask&2 != 0, SkipInterfaces: mask&4 != 0}
 		tr, err := translate(c.Src, cfg)
 		if err != nil {
+			ev.Note("flags: unusable (mask %d): %v", mask, err)
 			return "", false
 		}
 		if tr.Panic != nil {
 			return fmt.Sprintf("goose panicked with flags %+v: %v", cfg, tr.Panic), true
 		}
 		if len(tr.Errs) > 0 {
+			ev.Note("flags: rejected (mask %d): %v", mask, tr.Errs[0])
 			return "", false
 		}
 		m, order, err := defsText(tr.Text)
